@@ -8,6 +8,7 @@ import (
 	"strconv"
 	"strings"
 	"sync"
+	"sync/atomic"
 	"time"
 
 	"go.uber.org/zap"
@@ -80,7 +81,7 @@ type TCPServerTransport struct {
 	selfLearnRoute       *SelfLearnRoute
 	msgHandler           MessageHandler
 	connAcceptedListener ConnectionAcceptedListener
-	exit                 bool
+	exit                 int32 // set by the receiving goroutine, read by the message loop: accessed atomically
 }
 
 type ClientTransport interface {
@@ -486,7 +487,7 @@ func NewTCPServerTransport(addr string,
 		receivedSupport:      receivedSupport,
 		connAcceptedListener: connAcceptedListener,
 		selfLearnRoute:       selfLearnRoute,
-		exit:                 false,
+		exit:                 0,
 	}
 }
 
@@ -504,7 +505,7 @@ func NewTCPServerTransportWithConn(conn net.Conn,
 			receivedSupport:      receivedSupport,
 			connAcceptedListener: nil,
 			selfLearnRoute:       selfLearnRoute,
-			exit:                 false,
+			exit:                 0,
 		}
 	}
 	return nil
@@ -562,7 +563,7 @@ func (t *TCPServerTransport) receiveMessage(conn net.Conn) {
 		t.msgHandler.HandleRawMessage(rawMsg)
 	}
 	if t.conn != nil {
-		t.exit = true
+		atomic.StoreInt32(&t.exit, 1)
 	}
 }
 
@@ -583,6 +584,6 @@ func (t *TCPServerTransport) GetPort() int {
 }
 
 func (u *TCPServerTransport) IsExit() bool {
-	return u.conn != nil && u.exit
+	return u.conn != nil && atomic.LoadInt32(&u.exit) != 0
 }
 
